@@ -158,7 +158,18 @@ pub async fn conc_history(ctx: &mut Ctx, root: &std::path::Path, tag: &str) {
                 let plen = if long { *ctx.rng.pick(&[5000usize, 20000, 20000]) } else { *ctx.rng.pick(&[0usize, 50, 500, 5000, 20000]) };
                 events.push(mk(&mut w, ctx, format!("own-{c}-{pk_idx}"), ExpectedVersion::Any, plen));
             }
-            txs.push(GenTx { pkey, pk_idx, pid, exp_seq: ExpectedVersion::Any, events });
+            // expected partition sequences (only on transactions without a hot stream, so the
+            // per-round winner rule of the hot streams is unaffected): racing Exact(head) — one
+            // winner per partition and round — and a hopeless Exact far ahead (always rejected)
+            let exp_seq = if conflicting { ExpectedVersion::Any } else {
+                let head = w.spec.parts.get(&pid).and_then(|v| v.last().map(|e| e.seq));
+                match ctx.rng.below(8) {
+                    0 | 1 => { ctx.stat("conc_exp_seq_exact_head"); match head { Some(h) => ExpectedVersion::Exact(h), None => ExpectedVersion::Empty } }
+                    2 => { ctx.stat("conc_exp_seq_hopeless"); ExpectedVersion::Exact(head.unwrap_or(0) + 1_000_000) }
+                    _ => ExpectedVersion::Any,
+                }
+            };
+            txs.push(GenTx { pkey, pk_idx, pid, exp_seq, events });
         }
         // all clients of the round race
         let mut handles = vec![];
@@ -216,7 +227,10 @@ pub async fn conc_history(ctx: &mut Ctx, root: &std::path::Path, tag: &str) {
     for a in succ.iter() {
         let stored = stored_sizes(&a.tx, a.txid, &replay_spec, w.cfg.nb, w.cfg.compression);
         let (first, last, offs, vs) = a.res.as_ref().unwrap();
-        let mut s = format!("st append b={} pk={} pid={} exp={} n={}", a.tx.pid % w.cfg.nb, a.tx.pk_idx, a.tx.pid, show_exp(a.tx.exp_seq), a.tx.events.len());
+        // `nooffs`: a rejected expected-sequence append may have rolled the segment over at an unknown
+        // point of the serial order (the rollover decision precedes that validation), so file
+        // offsets are not compared in this family (layout independence of every read is C03)
+        let mut s = format!("st append b={} pk={} pid={} exp={} n={} nooffs", a.tx.pid % w.cfg.nb, a.tx.pk_idx, a.tx.pid, show_exp(a.tx.exp_seq), a.tx.events.len());
         for (i, e) in a.tx.events.iter().enumerate() { s.push_str(&format!(" | e{} {} {} 1 {} {} {} {} {}", e.idx, e.stream, show_exp(e.exp), e.stream.len(), e.name.len(), e.meta.len(), e.payload.len(), stored[i])); }
         // C16: the serial execution in this order must accept it with exactly these results
         match replay_spec.append(&a.tx, w.cfg.nb, usize::MAX / 4) {
@@ -224,11 +238,15 @@ pub async fn conc_history(ctx: &mut Ctx, root: &std::path::Path, tag: &str) {
             other => { w2hist.push(s.clone()); ctx.oracle_fail(&key16, &format!("successful concurrent append (seq {first}..{last}) is not what the serial execution in serialization order gives: {:?}", other.map(|x| (x.0, x.1))), &w2hist); }
         }
         w2hist.push(s.clone());
-        ctx.emit(&s, &format!("ok {first} {last} [{}] offs={}", vs.iter().map(|(k, v)| format!("{k}:{v}")).collect::<Vec<_>>().join(","), offs.iter().map(|o| o.to_string()).collect::<Vec<_>>().join(",")));
+        let _ = offs;
+        ctx.emit(&s, &format!("ok {first} {last} [{}] offs=*", vs.iter().map(|(k, v)| format!("{k}:{v}")).collect::<Vec<_>>().join(",")));
     }
     for a in attempts.iter().filter(|a| a.res.is_err() && a.res != Err("timeout".to_string())) {
         let stored = stored_sizes(&a.tx, a.txid, &replay_spec, w.cfg.nb, w.cfg.compression);
-        let mut s = format!("st append b={} pk={} pid={} exp={} n={}", a.tx.pid % w.cfg.nb, a.tx.pk_idx, a.tx.pid, show_exp(a.tx.exp_seq), a.tx.events.len());
+        // `nooffs`: a rejected expected-sequence append may have rolled the segment over at an unknown
+        // point of the serial order (the rollover decision precedes that validation), so file
+        // offsets are not compared in this family (layout independence of every read is C03)
+        let mut s = format!("st append b={} pk={} pid={} exp={} n={} nooffs", a.tx.pid % w.cfg.nb, a.tx.pk_idx, a.tx.pid, show_exp(a.tx.exp_seq), a.tx.events.len());
         for (i, e) in a.tx.events.iter().enumerate() { s.push_str(&format!(" | e{} {} {} 1 {} {} {} {} {}", e.idx, e.stream, show_exp(e.exp), e.stream.len(), e.name.len(), e.meta.len(), e.payload.len(), stored[i])); }
         // a loser must also lose at the end of the serial order (versions only grow)
         let mut s2 = replay_spec.clone();
